@@ -177,7 +177,13 @@ def _vc_component(R: Report, pid: str, tier: str, only=None):
             R.assume(f"assumed contract (not verified): {q_.replace('pyvolutionary.', '')} - {c_.assumed_reason}")
     R.trust(*TRUSTED_VC)
     for t in sorted(tags):
-        R.assume(TAG_TEXT.get(t, t))
+        if t.startswith("A_object_invariant:"):
+            R.assume("object invariant assumed at entry of the methods verified under it (established by the constructors, no writer in the "
+                     "package; constructors of the variable classes: bounded law campaign): " + t.split(":", 1)[1])
+        elif t.startswith("A_not_overridden:"):
+            R.assume("contract-less method executed in place because no class of the package overrides it: " + t.split(":", 1)[1])
+        else:
+            R.assume(TAG_TEXT.get(t, t))
     return eng
 
 
@@ -190,6 +196,15 @@ TAG_TEXT = {
     "AX_pydantic_model_copy": "pydantic model_copy(update=u): fresh shallow copy, exactly u overridden, no validation",
     "AX_concurrent_futures": "as_completed yields every submitted future exactly once in some order; Future.result() returns the callable's value",
     "AX_numpy_average_is_a_function_of_the_elements": "np.average is a deterministic function of the sequence's elements",
+    "AX_numpy_dot_is_a_function_of_the_elements": "np.dot of two float vectors is a deterministic function of their elements",
+    "AX_numpy_dot_of_negated_vector_is_negated_and_dot_commutes": "np.dot(-a, w) = -np.dot(a, w) = np.dot(a, -w) and np.dot(a, w) = np.dot(w, a) "
+                                                                  "(IEEE negation is exact, rounding is symmetric, same summation order)",
+    "AX_numpy_array_keeps_the_elements": "np.array(sequence of scalars) is a fresh array with the same elements in the same order",
+    "AX_prefix_sums": "prefix sums fsum and the segment function segf of a concatenation: recurrence, monotonicity, existence and uniqueness "
+                      "of the owning segment (lemmas/L2.lean, checked by the thorough tier of C14)",
+    "AX_pydantic_constructor": "BaseModel.__init__(**kw): declared fields set from kw (lists copied, None kept), defaults otherwise, then the "
+                               "validators of the class (each under its own contract)",
+    "AX_numpy_uniform_within_bounds": "np.random.uniform(lo, hi) lies in [lo, hi]; np.random.random() in [0, 1)",
 }
 
 
